@@ -55,7 +55,7 @@ def tasks(tier, seed):
             if vroom:
                 T = 8
             elif wrapper:
-                T = 100 if gpo else (40 if tier == "quick" else 100)
+                T = 100
             else:
                 T = 60 if tier == "quick" else 150
             ts.append({"kind": "algo", "label": "dev/%s/%s/%s" % (label, cfg["part"], base), "cfg": cfg, "mode": "dev",
